@@ -135,10 +135,12 @@ def gen_case(rng, stream: str):
             # 4th element: seed of a permutation of the 13 DataFrame columns / of the keyword order (None = canonical order)
             case["ops"].append(["clusters", gen_clusters(rng, case, p_out), rng.choice(["add_charge", "dataframe", "dataframe"]),
                                 rng.choice([None, rng.randrange(1, 10**6), rng.randrange(1, 10**6)])])
-        elif r < 0.82:
+        elif r < 0.78:
             case["ops"].append(["read"])
+        elif r < 0.82:
+            case["ops"].append(["roundtrip", rng.choice(["dict", "dict", "asdf"])])
         elif r < 0.9:
-            case["ops"].append(["reset"])
+            case["ops"].append(rng.choice([["reset"], ["emptyAll", True], ["emptyAll", False]]))
         elif stream == "remove":
             ids = [] if rng.random() < 0.2 else sorted(rng.sample(range(12), rng.randint(1, 4)))
             case["ops"].append(["remove", ids])
@@ -227,6 +229,25 @@ def directed_geometry_cases():
             cs = [[1 + i * cols + j, (i + 0.5) * h, (j + 0.5) * w] for i in range(rows) for j in range(cols)]
             out.append({"det": "CCD", "rows": rows, "cols": cols, "h": h, "w": w, "geo_via": via, "geo0": [h0, w0],
                         "ops": [["clusters", cs, "add_charge", None], ["read"], ["array", [[1] * cols] * rows, "float64"], ["read"]]})
+    return out
+
+
+def directed_detector_cases():
+    """detector-level resets with NO read between the additions and the reset, and dictionary / file round trips of the
+    detector in the middle of a history, for the four detector classes"""
+    out = []
+    a = [[1, 0, 2], [0, 3, 0]]
+    cl = [[4, 5.0, 5.0], [5, 15.0, 5.0], [6, 5.0, 25.0]]
+    for det in ("CCD", "CMOS", "APD", "MKID"):
+        base = {"det": det, "rows": 2, "cols": 3, "h": 10.0, "w": 10.0}
+        for reset in (True, False):
+            out.append(dict(base, ops=[["clusters", cl, "add_charge", None], ["emptyAll", reset], ["read"], ["array", a, "float64"], ["read"]]))
+            out.append(dict(base, ops=[["array", a, "float64"], ["clusters", cl, "dataframe", None], ["emptyAll", reset],
+                                       ["clusters", cl[:1], "add_charge", None], ["read"]]))
+        for how in ("dict", "asdf"):
+            out.append(dict(base, ops=[["clusters", cl, "add_charge", None], ["roundtrip", how], ["read"], ["array", a, "float64"], ["read"]]))
+            out.append(dict(base, ops=[["array", a, "float64"], ["roundtrip", how], ["read"], ["clusters", cl, "add_charge", None], ["read"],
+                                       ["roundtrip", how], ["read"], ["remove", [0]], ["roundtrip", how], ["read"]]))
     return out
 
 
@@ -403,6 +424,28 @@ def run_impl(case):
             elif op[0] == "reset":
                 ch.empty()
                 rec["out"] = "ok"
+            elif op[0] == "emptyAll":
+                det.empty(op[1])            # the detector-level reset of a readout step (destructive or not)
+                ch = det.charge
+                rec["out"] = "ok"
+            elif op[0] == "roundtrip":
+                if op[1] == "dict":
+                    det = type(det).from_dict(det.to_dict())
+                else:
+                    import shutil
+                    import tempfile
+
+                    from pyxel.detectors import Detector
+
+                    tmp = tempfile.mkdtemp(prefix="c14rt-")
+                    try:
+                        path = os.path.join(tmp, "detector.asdf")
+                        det.save(path)
+                        det = Detector.load(path)
+                    finally:
+                        shutil.rmtree(tmp, ignore_errors=True)
+                ch = det.charge             # the history goes on with the rebuilt detector
+                rec["out"] = "ok"
             else:
                 raise common.InfraError(f"unknown op {op[0]}")
         except common.InfraError:
@@ -495,6 +538,10 @@ def lean_request(case):
             ops.append(["clusters", [[fr(n), fr(v), fr(u)] for n, v, u in op[1]]])
         elif op[0] == "remove":
             ops.append(["remove", op[1]])
+        elif op[0] == "emptyAll":
+            ops.append(["emptyAll", bool(op[1])])
+        elif op[0] == "roundtrip":
+            ops.append(["roundtrip", op[1] != "dict"])      # a file does not keep the index labels, the dictionary does
         elif op[0] == "mutate":
             continue        # arrays are VALUES in the model: what the caller does to its own ndarray afterwards is no operation
         else:
@@ -567,7 +614,7 @@ def property_predicate(case, impl, mode):
                     outside_since_reset = True
                 else:
                     acc[p[0]][p[1]] += n
-        elif op[0] == "reset" and out == "ok":
+        elif op[0] in ("reset", "emptyAll") and out == "ok":
             acc = [[Fraction(0)] * cols for _ in range(rows)]
             tracking, outside_since_reset = True, False
         elif op[0] == "remove":
@@ -602,7 +649,11 @@ def property_predicate(case, impl, mode):
                 diff = [(a, b, str(g[a][b]), str(acc[a][b])) for a in range(rows) for b in range(cols) if g[a][b] != acc[a][b]]
                 over = any(g[a][b] > acc[a][b] for a in range(rows) for b in range(cols))
                 key = "C14:outside-credited-elsewhere" if (outside_since_reset and over) else "C14:accounting"
-                if key == "C14:accounting" and case.get("geo_via") and any(o[0] == "clusters" for o in case["ops"][:i]):
+                if key == "C14:accounting" and over and any(o[0] == "roundtrip" for o in case["ops"][:i]):
+                    key = "C14:accounting-after-roundtrip"
+                elif key == "C14:accounting" and over and any(o[0] == "emptyAll" for o in case["ops"][:i]):
+                    key = "C14:detector-reset-keeps-charge"
+                elif key == "C14:accounting" and case.get("geo_via") and any(o[0] == "clusters" for o in case["ops"][:i]):
                     key = "C14:accounting-geometry-set-after-construction"
                 elif key == "C14:accounting" and noop_removal and not over:
                     key = "C14:remove-without-clusters-erases-array-charge"
@@ -644,6 +695,7 @@ def body(ck: common.Check):
     cases += [("remove", dict(b0, ops=[["clusters", [[4, 5.0, 5.0], [2, 15.0, 25.0]], "add_charge", None], ["read"], ["remove", ids_], ["read"],
                                         ["array", a0, "float64"], ["read"]])) for ids_ in ([], [0, 1], [0])]
     cases += [("remove", c) for c in directed_remove_cases()] + [("geometry", c) for c in directed_geometry_cases()]
+    cases += [("detector", c) for c in directed_detector_cases()]
     lay = directed_layout_cases()
     cases += [("layout", c) for c in (lay if not quick else [c for k, c in enumerate(lay) if (c["rows"] != 4 and k % 2 == 0) or k % 7 == 0])]
     for stream, n in (("inside", 130 if quick else 3000), ("outside", 90 if quick else 1800), ("remove", 50 if quick else 800)):
@@ -707,7 +759,7 @@ def body(ck: common.Check):
                     raise common.InfraError(f"Lean model and Lean accumulator disagree on {case} at op {k}: contradicts report_eq_acc")
     ck.rule = ("interleavings (3-11 ops) of add_charge_array (integer-valued float64/32/16 arrays, a few wrongly shaped), add_charge / "
                "add_charge_dataframe (clusters at pixel centres, on borders, one ulp either side of borders, at 0/-0.0/far edge, random inside; "
-               "outside: -ulp, negative, exactly at / beyond the far edge, far away), .array reads, resets, removals by id / all, on the "
+               "outside: -ulp, negative, exactly at / beyond the far edge, far away), .array reads, bucket resets, detector-level resets detector.empty(True/False) (also with no read since the additions), rebuilding the detector from to_dict() / from a saved .asdf file in the middle of the history, removals by id / all, on the "
                "charge bucket of CCD/CMOS/APD/MKID detectors of 1..5 x 1..5 pixels with dyadic and non-dyadic pixel sizes (0.001..1000) given to the constructor or set afterwards through the Geometry setters / Processor.set (both orders); several partial removals in a row (non-consecutive index labels); "
                "cluster batches as DataFrames with permuted column order / permuted keyword order (first and later batches); histories in which the caller "
                "re-adds the SAME ndarray object several times and overwrites / zeroes its own array after the call; plus every border/centre position of a 3x4 detector for 4 size pairs; non-trivial = at least two additions; distinct by canonical JSON")
